@@ -19,8 +19,55 @@ TRUSTED = ["rustc MIR lowering", "std iterator adaptors (filter/cloned/collect) 
 ASSUMPTIONS = []
 
 
+def relators_unmodified(ctx, g):
+    """the enumeration works with exactly the given relators: CosetTables::new stores expanded_relator_set(&rels) (all rotations and inverses of
+    every relator) unchanged - no rewriting, filtering or 'simplification' of the words - and coset_table does the same; expanded_relator_set
+    takes every relator and adds all of relator_permutations(rel)"""
+    ctx.clauses.append("the relators used are exactly the expanded set of the given relators, unmodified (T9)")
+    ALLOWED = ("collect", "cloned", "copied", "iter", "into_iter", "deref", "as_ref", "borrow", "expanded_relator_set", "clone", "to_vec", "from_iter")
+    nb = ctx.body("fpgroups::cosets::CosetTables::new")
+    ctx.scan([nb])
+    rels = ("param", 2, nb.debug.get(2, ""))
+    term = None
+    for bi, si, s in nb.assigns():
+        rv = s["rv"]
+        if rv["k"] == "aggregate" and "expanded_relators" in rv.get("fields", []):
+            t = norm(nb.origin(rv["ops"][rv["fields"].index("expanded_relators")]), g)
+            for _ in range(4):
+                t = map_term(t, lambda x: norm(nb.def_origin(x), g) if x[0] == "local" and norm(nb.def_origin(x), g) != x else None)
+            term = t
+    if term is None:
+        raise AnchorMissing("CosetTables::new: expanded_relators")
+    calls = [x for x in subterms(term) if x[0] == "call"]
+    foreign = sorted({x[1].split("::")[-1] for x in calls if x[1].split("::")[-1] not in ALLOWED})
+    src = [x for x in calls if x[1].endswith("cosets::expanded_relator_set")]
+    ok = not foreign and len(src) == 1 and strip(src[0][2][0]) == rels and not [x for x in subterms(term) if x[0] == "local"]
+    ctx.ob("T9-relators-unmodified", nb.name, "expanded_relators", "ok" if ok else "violation",
+           "expanded_relators = expanded_relator_set(&rels) collected as it is" if ok else
+           "the relators the enumeration works with are not the unmodified expanded set of the given ones (%s): tables are checked against different words than the caller's relators" % (
+               ("transformed by " + ", ".join(foreign)) if foreign else show(term, 1)[:100]))
+    er = ctx.body("fpgroups::cosets::expanded_relator_set")
+    ctx.scan([er])
+    p1 = ("param", 1, er.debug.get(1, ""))
+    ext = list(er.calls("Extend::extend"))
+    okx = len(ext) == 1
+    for bi, t in ext:
+        a = strip(norm(er.origin(t["args"][1]), g))
+        src_ = iter_source(er, strip(a[2][0]) if is_call(a, "relator_permutations") else a, g)
+        okx = okx and is_call(a, "free_words::relator_permutations") and src_ is not None and contains(norm(src_, g) if isinstance(src_, tuple) else ("?",), lambda y: y == p1)
+        okx = okx and every_iteration_reaches_bool(er, bi)
+    ctx.ob("T9-relators-unmodified", er.name, "extend(relator_permutations(rel)) for every rel", "ok" if okx else "violation",
+           "every given relator contributes all its rotations and inverses" if okx else "expanded_relator_set does not add relator_permutations(rel) for every given relator")
+
+
+def every_iteration_reaches_bool(body, site_bb):
+    lp = loop_containing(body, site_bb)
+    return lp is not None and must_pass_through(body, lp[1], site_bb, lp[0])
+
+
 def run(ctx):
     g = ctx.facts.getters()
+    relators_unmodified(ctx, g)
     ctx.clauses.append("relator scans: both exits report (row reached, letters consumed); scan_both_ways = (head with full budget, tail with the rest, gap, w[i]) (T9)")
     relator_scan_shape(ctx, "T9-relator-scan", g)
     ch = ctx.body(BT + "children")
